@@ -180,10 +180,21 @@ impl Sub<f64> for ClockTime {
 			return self.add(-ticks);
 		}
 
-		let fraction = ((self.fraction - ticks).fract() + 1.0) % 1.0;
-		let ticks = self
-			.ticks
-			.saturating_sub((ticks - self.fraction).ceil() as u64);
+		let difference = self.fraction - ticks;
+		// (adding 0.0 turns a negative zero into a positive one)
+		let mut fraction = difference.fract() + 0.0;
+		let mut whole_ticks = -difference.trunc();
+		if fraction < 0.0 {
+			// borrow one tick
+			fraction += 1.0;
+			whole_ticks += 1.0;
+			// a tiny negative fraction rounds up to 1.0: nothing to borrow after all
+			if fraction >= 1.0 {
+				fraction = 0.0;
+				whole_ticks -= 1.0;
+			}
+		}
+		let ticks = self.ticks.saturating_sub(whole_ticks as u64);
 
 		Self {
 			clock: self.clock,
